@@ -408,7 +408,11 @@ func HarnessC16Led() {
 		go orgbServeDrop(ln, &dev, &capture, cancel, 1)
 	}
 	idev := input.Device{Handlers: []input.Handler{{DeviceInfo: input.VerifDeviceInfo("kbd", "event0")}}}
-	out := make(chan midi.Event, 16)
+	capOut := 512
+	if !verifrt.Symbolic() {
+		capOut = 4 // natively a slow output keeps the panic action busy for a while (as a hardware MIDI port does)
+	}
+	out := make(chan midi.Event, capOut)
 	d := NewDevice(idev, config.DeviceConfig{Config: cfg}, out, nil, true, port, make(chan os.Signal, 1))
 	wg := sync.WaitGroup{}
 	wg.Add(1)
@@ -416,10 +420,32 @@ func HarnessC16Led() {
 	if verifrt.Symbolic() {
 		d.handleOpenrgb(ctx, &wg)
 		returned = true
+		// the event goroutine's panic action takes the same two mutexes: with lock tracking on, taking them in the
+		// opposite order than the LED loop did is reported (the two run concurrently in the application)
+		d.processEvent(keyEvent(evdev.KEY_ESC, EV_KEY_PRESS))
+		d.processEvent(keyEvent(evdev.KEY_ESC, EV_KEY_RELEASE))
 	} else {
 		go func() {
 			d.handleOpenrgb(ctx, &wg)
 			returned = true
+		}()
+		// natively the event goroutine presses panic while the LED loop runs (its 129 messages are drained)
+		go func() {
+			for !returned {
+				select {
+				case <-out:
+					time.Sleep(200 * time.Microsecond)
+				default:
+					time.Sleep(time.Millisecond)
+				}
+			}
+		}()
+		go func() {
+			for i := 0; i < 40 && !returned; i++ {
+				d.processEvent(keyEvent(evdev.KEY_ESC, EV_KEY_PRESS))
+				d.processEvent(keyEvent(evdev.KEY_ESC, EV_KEY_RELEASE))
+				time.Sleep(7 * time.Millisecond)
+			}
 		}()
 		// let the loop run into the dead connection for a while, then disconnect
 		for i := 0; i < 150 && capture.N < 1; i++ { // the first connection attempt is made after 250 ms
